@@ -61,6 +61,10 @@ struct IovecExec {
     base_ordinal: u64,
     base_chunks: usize,
     base_bytes: usize,
+    /// set once the C05 containment oracle fired in this case: the real objects now hold a dangling
+    /// pointer, so no further op is executed on them (and they are leaked, not dropped) - the
+    /// violation is reported with its op sequence instead of crashing the whole run.
+    dead_memory: bool,
 }
 
 fn handle(pfx: char, t: &str) -> Option<usize> {
@@ -85,6 +89,7 @@ impl IovecExec {
             base_ordinal: next,
             base_chunks: ByteArena::num_live_chunks(),
             base_bytes: ByteArena::num_live_bytes(),
+            dead_memory: false,
         }
     }
 
@@ -279,6 +284,9 @@ fn parse_hex_list(s: &str) -> Option<Vec<Vec<u8>>> {
 impl Exec for IovecExec {
     fn step(&mut self, w: &[&str]) -> StepOut {
         let mut so = StepOut::default();
+        if self.dead_memory {
+            return so;
+        }
         let mut touched: Option<usize> = None;
         macro_rules! bad {
             () => {
@@ -398,6 +406,17 @@ impl Exec for IovecExec {
                     "push_aslice" => {
                         let Some(si) = handle('s', arg) else { bad!() };
                         let Some(a) = self.aslices.get_mut(si).and_then(|x| x.take()) else { bad!() };
+                        // C05 oracle first: never dereference a slice that is not inside live memory
+                        // (a dangling anchored slice must be reported as a violation, not crash the run).
+                        if !a.slice().is_empty() {
+                            let (live, _) = ByteArena::verif_live_chunks();
+                            if self.canon(a.slice().as_ptr() as usize, a.slice().len(), &live).is_none() {
+                                so.violations.push(format!("C05 anchored slice s{} points outside live memory (push_aslice)", si));
+                                std::mem::forget(a);
+                                self.dead_memory = true;
+                                return so;
+                            }
+                        }
                         let bytes = a.slice().to_vec();
                         // the composite the safe wrappers (Encoder::encode_anchored) perform
                         let (_, slice, anchor) = unsafe { a.components() };
@@ -629,6 +648,9 @@ impl Exec for IovecExec {
             _ => bad!(),
         }
         self.describe(&mut so, touched);
+        if so.violations.iter().any(|v| v.starts_with("C05")) {
+            self.dead_memory = true;
+        }
         so
     }
 
@@ -644,6 +666,14 @@ impl Exec for IovecExec {
 
     fn finish(&mut self) -> StepOut {
         let mut so = StepOut::default();
+        if self.dead_memory {
+            // dangling pointers inside: leak the objects rather than run their destructors
+            std::mem::forget(std::mem::take(&mut self.iovs));
+            std::mem::forget(std::mem::take(&mut self.aslices));
+            std::mem::forget(std::mem::take(&mut self.arenas));
+            std::mem::forget(std::mem::take(&mut self.brefs));
+            return so;
+        }
         self.iovs.clear();
         self.aslices.clear();
         self.arenas.clear();
@@ -716,6 +746,64 @@ impl<'a> Gen<'a> {
 }
 
 impl IovecFamily {
+    /// Scripted ownership scenarios for anchored slices (C05/C10): every way of deriving an
+    /// `AnchoredSlice` from another one (split halves, clone, take, skip, drop-suffix, push into an
+    /// iovec as a copied / borrowed slice), followed by dropping every OTHER holder of the chunk in
+    /// every order, so that the derived piece is the only thing keeping the chunk alive when the live
+    /// set is compared and the containment oracle runs.
+    fn ownership_cases(&self) -> Vec<Vec<String>> {
+        let mut cases: Vec<Vec<String>> = Vec::new();
+        for count in [40usize, 200] {
+            let src: Vec<u8> = (0..count + 4).map(|k| (k as u8).wrapping_mul(7).wrapping_add(3)).collect();
+            let read = format!("read_n a0 {} 4 {} d{}", count, to_hex(&src), count);
+            // derive: (ops on s0, handles of the pieces alive afterwards)
+            let derivations: Vec<(Vec<String>, Vec<usize>)> = vec![
+                (vec![format!("s_split s0 {}", count / 2)], vec![1, 2]),
+                (vec![format!("s_split s0 {}", 1)], vec![1, 2]),
+                (vec![format!("s_split s0 {}", count - 1)], vec![1, 2]),
+                (vec!["s_clone s0".to_string()], vec![0, 1]),
+                (vec!["s_take s0".to_string()], vec![0, 1]),
+                (vec![format!("s_skip s0 {}", count / 3)], vec![0]),
+                (vec![format!("s_dropsuf s0 {}", count / 3)], vec![0]),
+                (vec![format!("s_split s0 {}", count / 2), "s_clone s2".to_string(), format!("s_skip s3 {}", 3)], vec![1, 2, 3]),
+            ];
+            for (ops, pieces) in &derivations {
+                for keep in pieces {
+                    for arena_first in [true, false] {
+                        for sink in ["keep", "push", "push_then_consume"] {
+                            let mut c: Vec<String> = vec!["new".into(), "new_arena".into(), read.clone()];
+                            c.extend(ops.iter().cloned());
+                            if arena_first {
+                                c.push("drop_arena a0".into());
+                            }
+                            for p in pieces {
+                                if p != keep {
+                                    c.push(format!("s_drop s{}", p));
+                                }
+                            }
+                            if !arena_first {
+                                c.push("drop_arena a0".into());
+                            }
+                            match sink {
+                                "keep" => {}
+                                "push" => c.push(format!("push_aslice v0 s{}", keep)),
+                                _ => {
+                                    c.push("push_copy v0 aabb".into());
+                                    c.push(format!("push_aslice v0 s{}", keep));
+                                    c.push("consume v0 1".into());
+                                    c.push("clone v0".into());
+                                    c.push("drop v0".into());
+                                }
+                            }
+                            cases.push(c);
+                        }
+                    }
+                }
+            }
+        }
+        cases
+    }
+
     /// n placeholders in flight (each in its own slice, or merged into one arena slice), filled in
     /// EVERY order, with a read-out after each fill: all n! orders for n = 3, 4 (5 in thorough).
     fn fill_order_cases(&self, thorough: bool) -> Vec<Vec<String>> {
@@ -781,6 +869,7 @@ impl Family for IovecFamily {
     fn enumerated(&self, thorough: bool) -> Vec<Vec<String>> {
         let c = |ops: &[&str]| ops.iter().map(|s| s.to_string()).collect::<Vec<String>>();
         let mut cases = self.fill_order_cases(thorough);
+        cases.extend(self.ownership_cases());
         cases.extend(vec![
             c(&["new", "register v0 0000", "backfill v0 b0 aa"]),
             c(&["new", "register v0 0000", "backfill v0 b0 aabbcc"]),
